@@ -295,6 +295,20 @@ def check(case):
         if C.canon(older) != base:
           out.add('tags-lost-through-diff', 'mismatch', '', feat + ':callable-change', str(d)[:600])
           return out
+        # fourth pair: as the third, and the tags on parameters that both callables have differ too
+        # (x loses its tags, y gains one): callable change, AddTag and RemoveTag on one node
+        older = copy.deepcopy(root)
+        for b in reachable_buildables(older):
+          if b.__fn_or_cls__ is things.Base:
+            fdl.update_callable(b, things.LeafCls)
+            fdl.add_tag(b, 'extra', vtags.ALL[case['T']])
+            fdl.clear_tags(b, 'x')
+            fdl.add_tag(b, 'y', vtags.ALL[case['T']])
+        d = diffing.build_diff(older, root)
+        diffing.apply_diff(d, older)
+        if C.canon(older) != base:
+          out.add('tags-lost-through-diff', 'mismatch', '', feat + ':callable-and-tag-change', str(d)[:600])
+          return out
     except Exception as e:  # pylint: disable=broad-except
       out.add('diff-of-tags-raises', exc_kind(e), fiddle_frame(e), feat, repr(e)[:300])
       return out
